@@ -402,10 +402,15 @@ PROPS = {
                    'hooks; os file I/O. Queries containing a newline are outside the quantifier.',
         technique='Lean 4 proof (induction over sessions, refinement to a slot editor) + model/implementation correspondence',
         areas=[('hist', 3000, 400000)],
+        procs=['histsess'], needs_fzf=True,
         rule='seeded sessions (initial file: missing/empty/with+without trailing newline/over the limit; '
              'navs: prev/next/edit; submit or not); non-trivial = the session moves through at least one stored '
-             'entry after an edit and submits a non-empty line; distinct = distinct case lines',
-        trusted=['os.ReadFile/os.WriteFile', 'terminal.go glue (trimQuery, when append is called) is covered by the tmux driver only'],
+             'entry after an edit and submits a non-empty line; distinct = distinct case lines; plus 24 (quick) / 400 (thorough) sessions '
+             'of the real binary with --history under tmux: change-query / clear-query / prev-history / next-history posted through '
+             '--listen (40 % of them recall-edit-leave-return sequences, also edits to the empty line), accept or abort; the query after '
+             'every step and the file after exit are compared with the model',
+        trusted=['os.ReadFile/os.WriteFile', 'tmux and --listen for the process-level sessions (the terminal glue: override on prev/next, '
+                 'append on accept)'],
         assumptions=['submitted queries contain no newline (outside the property quantifier)'],
     ),
 }
